@@ -253,6 +253,12 @@ def run(tier):
         for mm in o['mism']:
             chk.violation(dict(kind=mm['what'], structure=sname, description_kind=mm.get('kind'), cause=mm.get('cause')),
                           dict(structure=sname, info=mm, definition=D.STRUCTURES[sname]))
+    # the recorded finding at the level of the design: TLC must keep producing the counterexample to "the exact-kernel
+    # rule follows the geometry" (four objects, Topology.tla)
+    rx = C.tlc('Topology', 'MC_Topology_exact4.cfg', name='exact4')
+    if rx.violated != 'ExactKernelFollowsGeometry':
+        raise C.Machinery('TLC no longer refutes ExactKernelFollowsGeometry (finding C06 repaired or the model drifted): ' + rx.out[-800:])
+    chk.cov['design_counterexample_exact_kernel_rule'] = 'ExactKernelFollowsGeometry refuted by TLC (MC_Topology_exact4.cfg)'
     for b in symmetric_dipole_check() + tapered_vee_check():
         chk.violation(dict(kind=b['what']), b)
     chk.case('symmetric-V', True, n=8)
